@@ -10,7 +10,13 @@ trilinear formula.  The same queries are issued for the `mine` pair and, batched
 Histories: one Grid / Forcing is asked repeatedly with position arrays that the caller keeps and updates in place (or replaces
 on release / removal) while the particles change cell, leave over an edge and the forcing advances in time; every answer is that
 of the cell the particle is in now (arithmetic on copies of the fields) and equals the answer of a Grid / Forcing without history.
-Full LADiM runs: particles leaving through each boundary are retired and the run completes."""
+Full LADiM runs: particles leaving through each boundary are retired and the run completes.
+No particle left: LADiM calls the tracker and the IBM at every time step, also when the last particle has been retired through an
+open boundary (or before a later release).  Every query of the four modules' Grid / Forcing is issued with zero-length arrays -
+directly, as the tail of histories in which the particles leave one by one, through update_ibm of the chemicals / mine /
+sedimentation / salmon_lice IBMs on LADiM's State, and in full LADiM runs in which every particle leaves - and must return
+one value per particle (none) instead of failing: the run continues to its stop time.  (Implementation side only: the model
+driver has no operation on empty batches.)"""
 import importlib, os, tempfile, shutil
 import numpy as np
 from .common import Driver, F, I, L, unF, same_bits
@@ -32,7 +38,26 @@ RULE = ("synthetic ROMS files (6..10 x 5..9 x 3..5, random bathymetry 20..100 m 
         "on w-levels and half way between two w-levels; forcing "
         "time step advanced (update(t)) at random steps; every Forcing and Grid query issued at every step, vertdiff twice (second time with "
         "new depths, same X / Y objects, as the LaBolle scheme does). Interior cell borders (x = n + 0.5) are not generated: there two cells are equally near "
-        "and the statement does not say which one is meant. Non-trivial: every query point.")
+        "and the statement does not say which one is meant. "
+        "NO PARTICLE LEFT (added after all of the above): (a) every query the tracker, the release step or an IBM can issue - Forcing velocity "
+        "(tstep 0 / 0.5 / 1), field, wvel, vertdiff, horzdiff, vert_mix; Grid sample_depth, sample_metric, lonlat (bilinear / nearest / None), xy2ll, "
+        "ll2xy, ingrid, atsea, onland, is_close_to_land, nearest_sea - of the chemicals, mine, sedimentation and salmon_lice Grid / Forcing on every "
+        "synthetic file, with zero-length float64 arrays made in six ways (literal, np.empty(0), slice / mask selection / index selection of a longer "
+        "array, rows of a reshaped stack), on new objects and on objects that advanced in time and answered a query before; (b) per module and file "
+        "1 (thorough 3) more histories as above (and 1 / 4 on the shipped file) that go on until no particle is left: one (sometimes two, or all) "
+        "of the particles moved 0.5..1.49 cell out over an edge in place, the next step without them (or one taken out without leaving), 2..4 steps "
+        "with zero-length arrays (same objects / new ones), forcing time step advanced at random, a later release of 1..3 particles, these leave "
+        "too; all queries of (a) except ll2xy at every step (inherited queries of LADiM's ROMS Grid / Forcing only while all positions are within "
+        "half a cell of the outermost cell centres); (c) 2 (thorough 10) histories per module of IBM.update_ibm (chemicals: vertical_mixing AKs / "
+        "constant / 0, vertdiff_dt 60 / 200 / 600, vertdiff_dz 0 / 2, horzdiff smagorinsky / none, land_collision reposition / coastal_diffusion / "
+        "freeze, vertical advection on / off, lifespan none / long / 1500 s; mine: taucrit 1000 / 0.12 / 0, vertical advection, reposition / freeze, "
+        "with / without output_file; sedimentation: vertical_mixing none / constant / bounded_linear, taucrit none / constant / grain_size_bin / "
+        "grain_size_poly; salmon_lice: vertical_mixing 0.001 / 0) on the real Grid / Forcing in LADiM's RomsGrid / RomsForcing wrappers and "
+        "ladim.state.State, 1..4 particles, per step: State.remove of the dead / outside ones, forcing.update only while particles exist, one particle "
+        "(sometimes all) put 0..0.99 cell beyond the module's ingrid, update_ibm; 2..4 calls on the empty state, a release of 1..3, 1..2 more empty "
+        "calls; (d) full LADiM runs (chemicals with land_collision freeze / reposition, sedimentation, mine, salmon_lice; 2 random boundaries per "
+        "module, thorough all four x 6) of 6 steps in which all 2..3 released particles leave within three steps, half of them with a later "
+        "release in the middle after 40 min; np.random served from a generator seeded by the check. Non-trivial: every query point.")
 ASSUMPTIONS = ["LADiM's bilin_inv / sample2D (xy2ll, ll2xy) are exercised, not modelled",
                "value oracles on the Grid queries apply to the chemicals Grid; on the sedimentation / mine Grid (LADiM's ROMS Grid) only "
                "sample_depth is judged by value, the inherited queries only for 'returns instead of failing'"]
@@ -456,14 +481,54 @@ def corner_values(arr, xi, yj):
     return [arr[j0, i0], arr[j0, i0 + 1], arr[j0 + 1, i0], arr[j0 + 1, i0 + 1]], i, j
 
 
-def history(ctx, G, conf, label, pair, nt_max):
+# ---------------------------------------------------------------------------------------------------------------- no particle left
+# what a query returns per particle: a number ('f'), a flag ('b'), cell indices ('i' / 'u' / 'f'); number of components
+QKIND = dict(velocity="f", velocity_tstep="f", field="f", wvel="f", vertdiff="f", vertdiff_again="f", horzdiff="f", vert_mix="f",
+             sample_depth="f", sed_sample_depth="f", sample_metric="f", lonlat="f", lonlat_nearest="f", lonlat_None="f", xy2ll="f", ll2xy="f",
+             ingrid="b", atsea="b", onland="b", is_close_to_land="b", nearest_sea="iuf")
+QCOMP = dict(velocity=2, velocity_tstep=2, sample_metric=2, lonlat=2, lonlat_nearest=2, lonlat_None=2, xy2ll=2, ll2xy=2, nearest_sea=2)
+EMPTY_KINDS = ("literal", "np_empty", "slice_of_array", "mask_selection", "index_selection", "rows_of_reshaped_stack")
+
+
+def empty_arrays(ctx, g, kind=None):
+    """(kind, X, Y, Z): zero-length float64 position arrays, made the way LADiM, its tracker and the IBMs make them when no
+    particle is left (or none is active): a literal, np.empty(0), a slice / a mask selection (state['X'][active], State.remove) /
+    an index selection (X[pidx] with the indices np.intersect1d returns) of a longer array, the rows of np.stack([X, Y]).reshape([2, -1])
+    (the tracker's velocity closure)"""
+    kind = kind or ctx.rng.choice(EMPTY_KINDS)
+    if kind == "literal":
+        return kind, np.array([]), np.array([]), np.array([])
+    if kind == "np_empty":
+        return kind, np.empty(0), np.empty(0), np.empty(0)
+    m = ctx.rng.randrange(1, 5)
+    bx, by = positions(ctx.rng, g, m); bz = np.array([ctx.rng.uniform(0, 60) for _ in range(m)])
+    if kind == "slice_of_array":
+        return kind, bx[:0], by[:0], bz[m:]
+    sel = np.zeros(m, dtype=bool)
+    if kind == "mask_selection":
+        return kind, bx[sel], by[sel], bz[sel]
+    if kind == "index_selection":
+        idx = np.array([], dtype=np.intp)
+        return kind, bx[idx], by[idx], bz[idx]
+    x, y = np.stack([bx[sel], by[sel]]).reshape([2, -1])
+    return kind, x, y, bz[sel]
+
+
+def history(ctx, G, conf, label, pair, nt_max, tail=False):
     """Histories of queries, as the tracker and the IBMs issue them: ONE Grid / Forcing is asked again and again with the
     caller's position arrays, which are kept between the queries and updated in place (LADiM's tracker: state['X'][active] = X;
     chemicals IBM.horzdiff: state['X'][in_grid] = x2[in_grid]), replaced by new arrays when particles are released or removed,
     while the particles move inside their cell, to another cell and out over an edge, and the forcing advances in time.
     Every answer must be the answer for the positions the arrays hold NOW: judged against the field values of the particle's
     current (nearest edge) cell by arithmetic on copies of the fields (nothing of the module under test is called for the
-    expected values), and additionally against a second Grid / Forcing that has never seen the history."""
+    expected values), and additionally against a second Grid / Forcing that has never seen the history.
+    tail=True: the history goes on until NO particle is left, as in a run in which the particles drift out through an open
+    boundary one by one (or exceed their life span) and LADiM's release step retires them: tracker and IBM are still called at
+    every time step, with zero-length arrays, until the stop time (or a later release).  One time step takes one (sometimes two,
+    or all) of the particles out over an edge (arrays updated in place), the next step starts without them (new, shorter arrays);
+    with no particle left the same zero-length arrays are passed again / replaced by other zero-length arrays (literal, slice,
+    mask or index selection of a longer array, rows of a reshaped stack), the forcing may advance, particles are released again
+    and drift out again.  Every query must return one value per particle - none - instead of failing."""
     own = pair == "chemicals"
     if pair in ("chemicals", "mine"):
         Mod = G if own else importlib.import_module("ladim_plugins.mine")
@@ -477,7 +542,7 @@ def history(ctx, G, conf, label, pair, nt_max):
         fs = None; gs = "ladim_plugins/sedimentation/gridforce.py::Grid."; tag = "C15.sed.history"
     g = Mod.Grid(conf); g2 = Mod.Grid(conf)
     f = f2 = None
-    if fs is not None:
+    if fs is not None or tail:
         f = Mod.Forcing(conf, g); f2 = Mod.Forcing(conf, g2)
         f.update(0); f2.update(0)
     tnow = 0
@@ -489,7 +554,7 @@ def history(ctx, G, conf, label, pair, nt_max):
     LON0 = np.array(g.lon) if own else None; LAT0 = np.array(g.lat) if own else None
 
     def snap():
-        if f is None:
+        if f is None or pair == "sedimentation":
             return {}
         if pair == "salmon_lice":
             return dict(A=np.array(f.AKs))
@@ -519,11 +584,45 @@ def history(ctx, G, conf, label, pair, nt_max):
               ("lonlat", gs + "lonlat", "Z", lambda f_, g_, X, Y, Z: g_.lonlat(X, Y))]
     if pair in ("mine", "sedimentation"):
         Q += [("sed_sample_depth", gs + "sample_depth", "Z", lambda f_, g_, X, Y, Z: g_.sample_depth(X, Y))]
+    # tail histories: the remaining queries the tracker / an IBM / the release step can issue.  They are judged for "returns one
+    # value per particle instead of failing" and for independence of the history only (UNJUDGED: no value oracle here)
+    margin_only = set()
+    if tail:
+        if own:
+            Q += [("lonlat_None", gs + "lonlat", "Z", lambda f_, g_, X, Y, Z: g_.lonlat(X, Y, method=None)),
+                  ("xy2ll", gs + "xy2ll", "Z", lambda f_, g_, X, Y, Z: g_.xy2ll(X, Y)),
+                  ("is_close_to_land", gs + "is_close_to_land", "Z", lambda f_, g_, X, Y, Z: g_.is_close_to_land(X, Y)),
+                  ("nearest_sea", gs + "nearest_sea", "Z", lambda f_, g_, X, Y, Z: g_.nearest_sea(X, Y))]
+        else:
+            if pair in ("sedimentation", "salmon_lice"):
+                hs = "ladim_plugins/%s/gridforce.py::" % pair
+                Q += [("velocity", hs + "Forcing.velocity", "Z", lambda f_, g_, X, Y, Z: f_.velocity(X, Y, Z)),
+                      ("velocity_tstep", hs + "Forcing.velocity", "Z", lambda f_, g_, X, Y, Z: f_.velocity(X, Y, Z, tstep=env["ts"])),
+                      ("field", hs + "Forcing.field", "Z", lambda f_, g_, X, Y, Z: f_.field(X, Y, Z, "temp"))]
+                margin_only.update(["velocity", "velocity_tstep", "field"])
+            hg = ("ladim_plugins/mine/__init__.py" if pair == "mine" else "ladim_plugins/%s/gridforce.py" % pair) + "::Grid."
+            inh = [("sample_metric", lambda f_, g_, X, Y, Z: g_.sample_metric(X, Y)), ("atsea", lambda f_, g_, X, Y, Z: g_.atsea(X, Y)),
+                   ("onland", lambda f_, g_, X, Y, Z: g_.onland(X, Y)), ("ingrid", lambda f_, g_, X, Y, Z: g_.ingrid(X, Y)),
+                   ("lonlat_nearest", lambda f_, g_, X, Y, Z: g_.lonlat(X, Y, method="nearest")),
+                   ("lonlat_None", lambda f_, g_, X, Y, Z: g_.lonlat(X, Y, method=None))]
+            if pair == "salmon_lice":
+                inh.append(("sample_depth", lambda f_, g_, X, Y, Z: g_.sample_depth(X, Y)))
+            else:
+                # (the sedimentation Grid's own xy2ll, asked by the mine IBM for the particles it takes out; nothing asks the
+                # salmon_lice Grid - LADiM's - for xy2ll of particle positions: its IBM uses lonlat(method=None))
+                inh.append(("xy2ll", lambda f_, g_, X, Y, Z: g_.xy2ll(X, Y)))
+            Q += [(qn, hg + ("lonlat" if qn.startswith("lonlat") else qn), "Z", q) for qn, q in inh]
+            # the inherited queries of LADiM's ROMS Grid / Forcing are asked for positions within half a cell of the outermost
+            # cell centres only (as in check_grid; see ASSUMPTIONS) - that is: always when no particle is left
+            margin_only.update(qn for qn, _ in inh)
+    unjudged = set(margin_only) | ({"lonlat_None", "xy2ll", "is_close_to_land", "nearest_sea"} if tail else set())
     env = {}
 
     def judge(name, k, v):
         """(ok, text): is v (the components of the answer for particle k) a value the statement allows for the position
         the arrays hold now"""
+        if name in unjudged:
+            return True, ""
         x = env["X"][k]; y = env["Y"][k]; ic = env["Ic"][k]; jc = env["Jc"][k]
         z = env["Z"][k] if name != "vertdiff_again" else env["ZZ"][k]
         colw = ZW[:, jc, ic]
@@ -588,9 +687,38 @@ def history(ctx, G, conf, label, pair, nt_max):
     kinds = ["first", "same_cell", "other_cell"] + [ctx.rng.choice(["same_cell", "other_cell", "other_cell", "over_edge", "over_edge", "anywhere", "x_only", "y_only",
                                                                     "z_only", "unchanged", "new_arrays", "released", "removed"])
                                                     for _ in range(ctx.n(7, 22))]
+    tl = dict(phase="drain", empties=0, rounds=0)
+
+    def next_tail_kind(n, last):
+        """the next step of the tail (see the docstring), None at the end"""
+        if n > 0:
+            if tl["phase"] == "after_release":
+                tl["phase"] = "drain_all"
+                return ctx.rng.choice(["same_cell", "other_cell"])
+            if last == "retire_out" or (last == "retired" and ctx.rng.random() < 0.25):
+                return "retired"                      # (second case: taken out without leaving, e.g. life span exceeded)
+            return "retire_out"
+        if tl["empties"] < tl.setdefault("want", ctx.rng.randrange(2, 5)):
+            tl["empties"] += 1
+            return ctx.rng.choice(["empty_unchanged", "empty_new_arrays", "empty_new_arrays"])
+        if tl["rounds"] == 0 and ctx.rng.random() < 0.7:
+            tl["rounds"] = 1; tl["empties"] = 0; tl["want"] = ctx.rng.randrange(1, 3); tl["phase"] = "after_release"
+            return "released_after_empty"
+        return None
+
     for step, kind in enumerate(kinds):
         n = len(X)
         nX = X.copy(); nY = Y.copy(); nZ = Z.copy()
+        if kind == "retire_out":
+            # one time step of motion takes one (sometimes two, or all) of the particles out over an edge
+            r = ctx.rng.random()
+            cnt = n if (tl["phase"] == "drain_all" or r > 0.85) else (min(n, 2) if r > 0.65 else 1)
+            for k in ctx.rng.sample(range(n), cnt):
+                d = ctx.rng.choice([0.5, 0.51, 0.9, 1.0, 1.49]); side = ctx.rng.choice("WESN")
+                if side == "W": nX[k] = xmin - d
+                if side == "E": nX[k] = xmax + d
+                if side == "S": nY[k] = ymin - d
+                if side == "N": nY[k] = ymax + d
         if kind in ("same_cell", "other_cell", "over_edge", "anywhere", "x_only", "y_only", "new_arrays"):
             pX, pY = positions(ctx.rng, g, n)
             for k in range(n):
@@ -626,7 +754,18 @@ def history(ctx, G, conf, label, pair, nt_max):
         # how the caller stores the new positions
         if kind == "new_arrays":
             how = "new_arrays"; X = nX; Y = nY; Z = nZ
-        elif kind == "released":
+        elif kind == "retired":
+            # the release step takes out the particles that are beyond half a cell of the outermost cell centres (if there
+            # is none: one particle, e.g. life span exceeded): the caller goes on with new, shorter arrays
+            how = "retired"
+            gone = ~((xmin - 0.5 < nX) & (nX < xmax + 0.5) & (ymin - 0.5 < nY) & (nY < ymax + 0.5))
+            if not gone.any():
+                gone[ctx.rng.randrange(n)] = True
+            X = nX[~gone]; Y = nY[~gone]; Z = nZ[~gone]
+        elif kind == "empty_new_arrays":
+            ek, X, Y, Z = empty_arrays(ctx, g)
+            how = "new_arrays_" + ek
+        elif kind in ("released", "released_after_empty"):
             how = "released"; m = ctx.rng.randrange(1, 4); pX, pY = positions(ctx.rng, g, m)
             X = np.concatenate([nX, pX]); Y = np.concatenate([nY, pY]); Z = np.concatenate([nZ, np.array([ctx.rng.uniform(0, 60) for _ in range(m)])])
         elif kind == "removed" and n > 2:
@@ -655,6 +794,9 @@ def history(ctx, G, conf, label, pair, nt_max):
                          X=X.tolist(), Y=Y.tolist(), Z=Z.tolist()))
         ctx.case(key=("history", pair, label, step, tuple(X.tolist()), tuple(Y.tolist())), nontrivial=True)
         ctx.branch("history_" + pair); ctx.branch("history_move_" + kind)
+        if n == 0:
+            ctx.branch("history_no_particle_left"); ctx.branch("history_no_particle_left_" + pair)
+        in_margin = bool(np.all((xmin - 0.5 <= X) & (X <= xmax + 0.5) & (ymin - 0.5 <= Y) & (Y <= ymax + 0.5)))
         if kind != "first":
             ctx.branch("history_stored_" + how)
             if how in ("slice", "mask", "add"):
@@ -669,6 +811,8 @@ def history(ctx, G, conf, label, pair, nt_max):
                       "in the step before unless 'stored' says new_arrays / released / removed" % ", ".join(q[0] for q in Q),
                   history=[dict(h) for h in hist])
         for name, site, zsel, call in Q:
+            if name in margin_only and not in_margin:
+                continue
             Zq = Z if zsel == "Z" else ZZ
             Xb = X.copy(); Yb = Y.copy(); Zb = Zq.copy()
             v = try_call(ctx, tag + "." + name + ".raises", site, lambda: call(f, g, X, Y, Zq), dict(cs, query=name))
@@ -678,6 +822,9 @@ def history(ctx, G, conf, label, pair, nt_max):
             if not ctx.oracle(all(np.shape(c) == (n,) for c in cols), tag + "." + name + ".shape", site,
                               "answer of shape %r for %d particles" % ([np.shape(c) for c in cols], n), dict(cs, query=name)):
                 continue
+            # one value per particle of the kind the query returns (a number / a flag), also when there is no particle
+            ctx.oracle(len(cols) == QCOMP.get(name, 1) and all(c.dtype.kind in QKIND[name] for c in cols), tag + "." + name + ".dtype", site,
+                       "answer with %d component(s) of dtype %r for %d particles" % (len(cols), [c.dtype.str for c in cols], n), dict(cs, query=name))
             # judged on what the arrays held when the query was issued
             env.update(X=Xb, Y=Yb, Z=Zb if zsel == "Z" else env["Z"], ZZ=Zb if zsel == "ZZ" else env["ZZ"],
                        Ic=np.clip(np.round(Xb).astype(int) - i0, 0, nx - 1), Jc=np.clip(np.round(Yb).astype(int) - j0, 0, ny - 1))
@@ -696,6 +843,10 @@ def history(ctx, G, conf, label, pair, nt_max):
                            "step %d (%s): particle(s) %r get %r; a Grid / Forcing without history gives %r for the same positions"
                            % (step, kind, bad[:3], [[np.asarray(c)[k] for c in cols] for k in bad[:3]], [[np.asarray(d)[k] for d in rc] for k in bad[:3]]),
                            dict(cs, query=name))
+        if tail and step == len(kinds) - 1 and len(kinds) < 120:
+            nk = next_tail_kind(n, kind)
+            if nk is not None:
+                kinds.append(nk)
     for o in (f, f2):
         try:
             if o is not None:
@@ -773,6 +924,369 @@ def full_run(ctx, tmp, module, side, idx):
         pid = [int(p) for p in nc["pid"][:]]
     ctx.oracle(count[0] == 4 and count[-1] == 1 and pid[-1] == 0, "C15.run.not_retired", site,
                "particle_count per output step %r (pids %r): expected 4 at the start and only particle 0 (released in the middle) at the end" % (count, pid), cs)
+
+
+PAIR_TAG = dict(chemicals="C15", mine="C15.mine", sedimentation="C15.sed", salmon_lice="C15.lice")
+
+
+def pair_modules(G, pair):
+    """(module with Grid / Forcing, site prefix of its Forcing methods, site prefix of its Grid methods)"""
+    if pair == "chemicals":
+        return G, SITE + "::Forcing.", SITE + "::Grid."
+    if pair == "mine":
+        return importlib.import_module("ladim_plugins.mine"), SITE + "::Forcing.", "ladim_plugins/mine/__init__.py::Grid."
+    p = "ladim_plugins/%s/gridforce.py::" % pair
+    return importlib.import_module("ladim_plugins.%s.gridforce" % pair), p + "Forcing.", p + "Grid."
+
+
+def empty_queries(ctx, G, conf, label):
+    """Every Grid / Forcing query the tracker, the release step or an IBM can issue, with NO particle: LADiM calls the tracker and
+    the IBM at every time step, also before a later release and after the last particle has been retired through an open boundary.
+    The answer must be one value per particle - zero-length arrays of numbers / flags - instead of an exception.  All four modules
+    of the anchors; fresh objects, and objects that have advanced in time and answered a query for particles before."""
+    for pair in ("chemicals", "mine", "sedimentation", "salmon_lice"):
+        Mod, fs, gs = pair_modules(G, pair)
+        tag = PAIR_TAG[pair] + ".empty."
+        g = Mod.Grid(conf); f = Mod.Forcing(conf, g)
+        f.update(0)
+        used = ctx.rng.random() < 0.5
+        if used:
+            # the objects have a past: a later forcing time step and a query for particles well inside the grid
+            f.update(1)
+            px = np.array([0.5 * (g.xmin + g.xmax)]); py = np.array([0.5 * (g.ymin + g.ymax)]); pz = np.array([1.0])
+            f.velocity(px, py, pz); g.sample_depth(px, py); f.field(px, py, pz, "temp")
+            ctx.branch("empty_query_on_used_objects")
+        Q = [("velocity", fs + "velocity", lambda X, Y, Z: f.velocity(X, Y, Z)),
+             ("velocity_tstep", fs + "velocity", lambda X, Y, Z: f.velocity(X, Y, Z, tstep=ts)),
+             ("field", fs + "field", lambda X, Y, Z: f.field(X, Y, Z, "temp"))]
+        if pair in ("chemicals", "mine"):
+            Q += [("wvel", fs + "wvel", lambda X, Y, Z: f.wvel(X, Y, Z)),
+                  ("vertdiff", fs + "vertdiff", lambda X, Y, Z: f.vertdiff(X, Y, Z, "AKs")),
+                  ("horzdiff", fs + "horzdiff", lambda X, Y, Z: f.horzdiff(X, Y, Z))]
+        if pair == "salmon_lice":
+            Q += [("vert_mix", fs + "vert_mix", lambda X, Y, Z: f.vert_mix(X, Y, Z))]
+        sd = "ladim_plugins/sedimentation/gridforce.py::Grid." if pair == "mine" else gs        # mine: the sedimentation Grid's own methods
+        Q += [("sample_depth", sd + "sample_depth", lambda X, Y, Z: g.sample_depth(X, Y)),
+              ("sample_metric", gs + "sample_metric", lambda X, Y, Z: g.sample_metric(X, Y)),
+              ("lonlat", gs + "lonlat", lambda X, Y, Z: g.lonlat(X, Y)),
+              ("lonlat_nearest", gs + "lonlat", lambda X, Y, Z: g.lonlat(X, Y, method="nearest")),
+              ("lonlat_None", gs + "lonlat", lambda X, Y, Z: g.lonlat(X, Y, method=None)),
+              ("xy2ll", (sd if pair in ("mine", "sedimentation") else gs) + "xy2ll", lambda X, Y, Z: g.xy2ll(X, Y)),
+              ("ll2xy", gs + "ll2xy", lambda X, Y, Z: g.ll2xy(X, Y)),           # the release step's converter, for a release table without rows
+              ("ingrid", gs + "ingrid", lambda X, Y, Z: g.ingrid(X, Y)),
+              ("atsea", gs + "atsea", lambda X, Y, Z: g.atsea(X, Y)),
+              ("onland", gs + "onland", lambda X, Y, Z: g.onland(X, Y))]
+        if pair == "chemicals":
+            Q += [("is_close_to_land", gs + "is_close_to_land", lambda X, Y, Z: g.is_close_to_land(X, Y)),
+                  ("nearest_sea", gs + "nearest_sea", lambda X, Y, Z: g.nearest_sea(X, Y))]
+        for ek in EMPTY_KINDS:
+            ts = ctx.rng.choice([0.5, 1.0])
+            for name, site, call in Q:
+                _, X, Y, Z = empty_arrays(ctx, g, ek)
+                cs = dict(grid=label, module=pair, query=name, n=0, arrays=ek, X=X, Y=Y, Z=Z, tstep=ts if name == "velocity_tstep" else None,
+                          objects="forcing at time step 1, queried for a particle before" if used else "new, forcing at time step 0",
+                          i0=g.i0, j0=g.j0, shape=list(g.H.shape))
+                ctx.case(key=("empty", pair, label, name, ek), nontrivial=True)
+                ctx.branch("empty_query_" + pair); ctx.branch("empty_arrays_" + ek)
+                v = try_call(ctx, tag + name + ".raises", site, lambda: call(X, Y, Z), cs)
+                if v is None:
+                    continue
+                cols = as_cols(v)
+                if ctx.oracle(len(cols) == QCOMP.get(name, 1) and all(np.shape(c) == (0,) for c in cols), tag + name + ".shape", site,
+                              "%d component(s) of shape %r for no particle" % (len(cols), [np.shape(c) for c in cols]), cs):
+                    ctx.oracle(all(c.dtype.kind in QKIND[name] for c in cols), tag + name + ".dtype", site,
+                               "dtype %r for a query that returns %s" % ([c.dtype.str for c in cols], "flags" if QKIND[name] == "b" else "numbers"), cs)
+        try:
+            f.close()
+        except Exception:
+            pass
+
+
+def with_salt(ctx, conf, tmp, label):
+    """copy of a configuration whose forcing file also has `salt` (the salmon_lice IBM samples temp and salt)"""
+    import netCDF4
+    path = os.path.join(tmp, "salt_%s.nc" % label)
+    if not os.path.exists(path):
+        shutil.copy(conf["gridforce"]["input_file"], path)
+        R = np.random.RandomState(ctx.sub_seed())
+        with netCDF4.Dataset(path, "a") as ds:
+            t = ds["temp"]
+            v = ds.createVariable("salt", t.dtype, t.dimensions); v[:] = R.uniform(20.0, 36.0, t.shape)
+    c = dict(conf); c["gridforce"] = dict(conf["gridforce"], input_file=path); c["ibm_forcing"] = ["temp", "salt", "AKs"]
+    return c
+
+
+def ibm_history(ctx, G, conf, label, module, tmp, idx):
+    """update_ibm of a module's IBM at every time step of a history, on the module's real Grid / Forcing (inside LADiM's wrappers
+    RomsGrid / RomsForcing) and LADiM's real State, in the order of LADiM's main loop (release step: retire / release; forcing;
+    [tracker: here one particle is put beyond an edge]; IBM), while the particles leave one by one until NONE is left; then the
+    IBM is called on the empty state for some steps, particles are released again, leave again.  The property: the step returns
+    instead of failing - with particles up to one step beyond an edge and with no particle at all (the run continues to its stop
+    time).  What the IBMs compute is the subject of other properties."""
+    from ladim.grid import RomsGrid
+    from ladim.forcing import RomsForcing
+    from .stubs import real_state
+    from .common import RngRecorder
+    own = module == "chemicals"
+    pkg = importlib.import_module("ladim_plugins." + module)
+    if module == "salmon_lice":
+        conf = with_salt(ctx, conf, tmp, label)
+    g = pkg.Grid(conf); f = pkg.Forcing(conf, g)
+    ny, nx = g.H.shape
+    xmin = float(g.i0); xmax = float(g.i0 + nx - 1); ymin = float(g.j0); ymax = float(g.j0 + ny - 1)
+    # the module's ingrid, by arithmetic: chemicals half a cell beyond the outermost cell centres, LADiM's ROMS Grid half a cell inside
+    e = -0.5 if own else 0.5
+    x0, x1, y0, y1 = xmin + e, xmax - e, ymin + e, ymax - e
+
+    def inside(X, Y):
+        return (x0 < X) & (X < x1) & (y0 < Y) & (Y < y1)
+
+    def release(m):
+        X = np.array([ctx.rng.uniform(x0 + 0.01, x1 - 0.01) for _ in range(m)]); Y = np.array([ctx.rng.uniform(y0 + 0.01, y1 - 0.01) for _ in range(m)])
+        H = np.array([float(g.H[min(max(int(round(y)) - g.j0, 0), ny - 1), min(max(int(round(x)) - g.i0, 0), nx - 1)]) for x, y in zip(X, Y)])
+        Z = np.array([ctx.rng.choice([0.0, 0.5, ctx.rng.uniform(0, 1) * h, h, h + 1.0]) for h in H])
+        d = dict(X=X, Y=Y, Z=Z)
+        for k, v in extra.items():
+            d[k] = np.array([v() for _ in range(m)])
+        return d
+    dt = 600
+    wg = RomsGrid.__new__(RomsGrid); wg.grid = g
+    wg.xmin, wg.xmax, wg.ymin, wg.ymax = g.xmin, g.xmax, g.ymin, g.ymax
+    wf = RomsForcing.__new__(RomsForcing); wf.forcing = f; wf.variables = {}
+    rc = ctx.rng.choice; ru = ctx.rng.uniform
+    if own:
+        ic = dict(vertical_mixing=rc(["AKs", "AKs", 0.001, 0]), vertdiff_dt=rc([60, 200, 600]), vertdiff_dz=rc([0, 2]), vertdiff_max=rc([0.01, float("inf")]),
+                  horzdiff_type=rc(["smagorinsky", None]), horzdiff_max=1, land_collision=rc(["reposition", "coastal_diffusion", "freeze"]),
+                  vertical_advection=rc([True, False]), lifespan=rc([None, 10 ** 7, 1500]))
+        iconf = dict(dt=dt, ibm=ic)
+        extra = dict(age=lambda: 0.0) if ic["lifespan"] is not None else {}
+    elif module == "mine":
+        ic = dict(lifespan=rc([10 ** 7, 1500]), vertical_mixing=rc([0.0, 1e-4]), taucrit=rc([1000, 0.12, 0.0]), vertical_advection=rc([True, False]),
+                  land_collision=rc(["reposition", "freeze"]))
+        iconf = dict(dt=dt, ibm=ic, output_instance=[], nc_attributes={})
+        if ctx.rng.random() < 0.5:
+            # the separate file of the particles taken out (store -> Grid.xy2ll of the dead particles' positions: often none)
+            ic["output_file"] = os.path.join(tmp, "dead_%d.nc" % idx)
+            iconf["output_instance"] = ["X", "Y", "Z", "lon", "lat", "age"]
+            iconf["nc_attributes"] = {k: dict(ncformat="f8") for k in iconf["output_instance"]}
+        extra = dict(age=lambda: 0.0, sink_vel=lambda: rc([0.0001, 0.01, 0.1]), active=lambda: rc([1, 1, 0]))
+    elif module == "sedimentation":
+        S = importlib.import_module("ladim_plugins.sedimentation")
+        grain = os.path.join(os.path.dirname(S.__file__), "grainsize.nc")
+        ic = dict(lifespan=rc([10 ** 7, 1500]),
+                  vertical_mixing=rc([None, 0.001, dict(method="bounded_linear", max_diff=0.01)]),
+                  taucrit=rc([None, 0.12, 0.0, dict(method="grain_size_bin", source=grain, varname="grain_size"),
+                              dict(method="grain_size_poly", source=grain, varname="grain_size")]))
+        iconf = dict(dt=dt, ibm=ic)
+        extra = dict(age=lambda: 0.0, sink_vel=lambda: rc([0.0, 0.0001, 0.01, 0.1]), active=lambda: rc([1, 1, 0]))
+    else:
+        ic = dict(vertical_mixing=rc([0.001, 0.0]))
+        iconf = dict(dt=dt, ibm=ic)
+        extra = {"super": lambda: 100.0, "age": lambda: ru(0, 100), "days": lambda: 0.0, "temp": lambda: 0.0, "salt": lambda: 0.0}
+    site = "ladim_plugins/%s/ibm.py::IBM.update_ibm" % module
+    tag = PAIR_TAG[module] + ".ibm."
+    import logging
+    logging.disable(logging.CRITICAL)           # (the chemicals IBM warns about coarse vertdiff_dz / vertdiff_dt combinations)
+    try:
+        ibm = pkg.IBM(iconf)
+    finally:
+        logging.disable(logging.NOTSET)
+    st = real_state(dt=dt, timestep=0, timestamp=np.datetime64("2015-09-07T01:00:00"), **release(ctx.rng.randrange(1, 5)))
+    seed = ctx.sub_seed()
+    hist = []
+    t = 0; tf = -1; empties = 0; rounds = 0; want = ctx.rng.randrange(2, 5)
+    while t < 60:
+        # --- release step: retire what is dead or outside the grid; a later release
+        ev = []
+        if st.size:
+            gone = ~(np.asarray(st["alive"], dtype=bool) & inside(st["X"], st["Y"]))
+            if gone.any():
+                st.remove(gone); ev.append("retired %d" % int(gone.sum()))
+        if st.size == 0 and empties >= want and rounds == 0:
+            rounds = 1; empties = 0; want = ctx.rng.randrange(1, 3)
+            st.append(release(ctx.rng.randrange(1, 4))); ev.append("released %d" % st.size); ctx.branch("ibm_history_released_after_empty")
+        elif st.size == 0 and empties >= want:
+            break
+        n = st.size
+        # --- forcing: LADiM updates it only while there are particles; the first update initialises it
+        if tf < 0 or (n > 0 and tf < 4 and ctx.rng.random() < 0.4):
+            tf += 1; f.update(tf)
+        st.timestep = t; st.timestamp = np.datetime64("2015-09-07T01:00:00") + np.timedelta64(t * dt, "s")
+        # --- tracker: one particle (sometimes all) ends up to one step beyond an edge, in place in the state's arrays
+        if n > 0 and t > 0:
+            who = list(range(n)) if (rounds == 1 or ctx.rng.random() < 0.15) else [ctx.rng.randrange(n)]
+            for k in who:
+                d = rc([0.0, 0.01, 0.4, 0.5, 0.99]); side = rc("WESN")
+                if side == "W": st["X"][k] = x0 - d
+                if side == "E": st["X"][k] = x1 + d
+                if side == "S": st["Y"][k] = y0 - d
+                if side == "N": st["Y"][k] = y1 + d
+            ev.append("moved out %r" % (who,))
+        hist.append(dict(step=t, events=ev, forcing_time_step=tf, n=n, X=st["X"].tolist(), Y=st["Y"].tolist(), Z=st["Z"].tolist()))
+        cs = dict(grid=label, module=module, ibm_config=iconf, i0=g.i0, j0=g.j0, shape=[ny, nx], np_random_seed=seed + t, step=t,
+                  how="one IBM / Grid / Forcing / ladim.state.State; per step: release step (State.remove / State.append), forcing.update, "
+                      "positions set in place, IBM.update_ibm(RomsGrid wrapper, state, RomsForcing wrapper)",
+                  history=[dict(h) for h in hist])
+        ctx.case(key=("ibm", module, label, idx, t, n), nontrivial=True)
+        ctx.branch("ibm_history_" + module); ctx.size("ibm_history_particles", n)
+        if n == 0:
+            empties += 1; ctx.branch("ibm_on_empty_state_" + module)
+        err = None
+        try:
+            with RngRecorder(seed + t):
+                ibm.update_ibm(wg, st, wf)
+        except Exception as ex:
+            import traceback
+            err = "%r\n%s" % (ex, traceback.format_exc()[-1500:])
+        if not ctx.oracle(err is None, tag + ("empty_state_raises" if n == 0 else "raises"), site,
+                          "step %d, %d particle(s): update_ibm raised %s" % (t, n, err), cs):
+            break
+        bad = {k: np.shape(v) for k, v in st._data.items() if np.shape(v) != (n,)}
+        if not ctx.oracle(st.size == n and not bad, tag + "state_length_changed", site,
+                          "step %d: the state had %d particle(s) before update_ibm, afterwards %d; variables of another length: %r" % (t, n, st.size, bad), cs):
+            break
+        t += 1
+    try:
+        f.close()
+    except Exception:
+        pass
+
+
+def full_run_drain(ctx, tmp, module, side, idx):
+    """a full LADiM run of one module on a flat basin with a uniform current towards one boundary in which EVERY particle
+    leaves: two or three particles released 0.05 / 0.3 / 0.6 cell inside that boundary, none elsewhere; in half of the runs a
+    later release (40 min after the start) in the middle of the basin.  LADiM keeps calling tracker and IBM with no particle;
+    the run must continue to its stop time: all 7 output records, particle_count 0 from the fourth record on (0.3 .. 0.9 cell
+    per step: all are outside after three steps) until the later release, 1 afterwards."""
+    import yaml, netCDF4, logging, importlib.resources, traceback
+    import ladim
+    nx, ny, N = 12, 11, ctx.rng.randrange(3, 6)
+    nt = 3; dt = 600
+    cells = ctx.rng.choice([0.3, 0.45, 0.6, 0.75, 0.9])
+    speed = cells * 800.0 / dt
+    adv = ctx.rng.choice(["EF", "RK4"])
+    later = ctx.rng.random() < 0.5
+    uu = {"W": -speed, "E": speed}.get(side, 0.0); vv = {"S": -speed, "N": speed}.get(side, 0.0)
+    path = os.path.join(tmp, "drain%d.nc" % idx); rls = os.path.join(tmp, "drain%d.rls" % idx); out = os.path.join(tmp, "drain%d_out.nc" % idx)
+    romsfile.write_roms(path, ctx.rng, nx=nx, ny=ny, N=N, flat=50.0, fields=("temp", "salt", "AKs"),
+                        values=dict(u=np.full((nt, N, ny, nx - 1), uu), v=np.full((nt, N, ny - 1, nx), vv)))
+    with netCDF4.Dataset(path, "a") as ds:
+        ds["pm"][:] = 1.0 / 800.0; ds["pn"][:] = 1.0 / 800.0
+    with importlib.resources.files("ladim_plugins." + module).joinpath("ladim.yaml").open() as fp:
+        conf = yaml.safe_load(fp)
+    conf["time_control"] = dict(start_time="2015-09-07 01:00:00", stop_time="2015-09-07 02:00:00")
+    conf["files"] = dict(particle_release_file=rls, output_file=out)
+    conf["gridforce"]["input_file"] = path
+    conf["numerics"]["dt"] = [dt, "s"]; conf["numerics"]["diffusion"] = 0; conf["numerics"]["advection"] = adv
+    conf["output_variables"]["outper"] = [dt, "s"]
+    conf["particle_release"].pop("release_type", None); conf["particle_release"].pop("release_frequency", None)      # salmon_lice: one release per row
+    if "lifespan" in conf["ibm"]:
+        conf["ibm"]["lifespan"] = 10 ** 7
+    if module == "mine":
+        conf["ibm"]["vertical_advection"] = bool(ctx.rng.random() < 0.5)
+    timed = True
+    if module == "chemicals":
+        # 'reposition' (the shipped setting) re-seeds the surviving particles at random inside their cell on every step without a
+        # reallocation of the state (known finding F-C11a of C11): when a particle leaves is then a matter of chance, and the
+        # counts are judged only with 'freeze' (no random horizontal move: the shear of a uniform current is zero)
+        conf["ibm"]["land_collision"] = ctx.rng.choice(["freeze", "freeze", "reposition"])
+        timed = conf["ibm"]["land_collision"] == "freeze"
+    gmod = importlib.import_module(conf["gridforce"]["module"])
+    g = gmod.Grid(dict(gridforce=dict(input_file=path)))
+    xs = np.linspace(g.xmin - 1, g.xmax + 1, 4001); ys = np.linspace(g.ymin - 1, g.ymax + 1, 4001)
+    inx = xs[g.ingrid(xs, np.full_like(xs, 0.5 * (g.ymin + g.ymax)))]; iny = ys[g.ingrid(np.full_like(ys, 0.5 * (g.xmin + g.xmax)), ys)]
+    x0, x1, y0, y1 = float(inx.min()), float(inx.max()), float(iny.min()), float(iny.max())
+    pts = []
+    for dist, along in ((0.05, 0.25), (0.3, 0.5), (0.6, 0.8))[ctx.rng.randrange(0, 2):]:
+        if side == "W": pts.append((x0 + dist, y0 + along * (y1 - y0)))
+        if side == "E": pts.append((x1 - dist, y0 + along * (y1 - y0)))
+        if side == "S": pts.append((x0 + along * (x1 - x0), y0 + dist))
+        if side == "N": pts.append((x0 + along * (x1 - x0), y1 - dist))
+    rows = [("2015-09-07T01:00:00", x, y) for (x, y) in pts]
+    if later:
+        rows.append(("2015-09-07T01:40:00", 0.5 * (x0 + x1), 0.5 * (y0 + y1)))
+    with open(rls, "w") as fp:
+        for (tm, x, y) in rows:
+            row = dict(release_time=tm, X="%.6f" % x, Y="%.6f" % y, Z="5", group_id="0", active="1", sink_vel="0.00001", mult="1",
+                       farmid="1", super="100")
+            fp.write("\t".join(row[v] for v in conf["particle_release"]["variables"]) + "\n")
+    seed = ctx.sub_seed()
+    cs = dict(module=module, boundary=side, cells_per_step=cells, advection=adv, N=N, release=rows, config=conf, np_random_seed=seed)
+    site = "ladim_plugins/%s (full LADiM run)" % module
+    ctx.case(key=("drain", module, side, cells, adv, later, idx), nontrivial=True)
+    ctx.branch("full_run_all_particles_leave_%s_%s" % (module, side)); ctx.branch("full_run_all_leave_" + ("then_later_release" if later else "to_the_end"))
+    root = logging.getLogger(); handlers = root.handlers[:]; lvl = root.level
+    logging.disable(logging.CRITICAL)
+    err = None
+    try:
+        from .common import RngRecorder
+        with RngRecorder(seed):                      # the draws of np.random.* come from a generator seeded by the check
+            ladim.main(yaml.safe_dump(conf))
+    except KeyboardInterrupt:
+        raise
+    except BaseException as e:
+        err = "%r\n%s" % (e, traceback.format_exc()[-2500:])
+    finally:
+        logging.disable(logging.NOTSET)
+        for h in root.handlers[:]:
+            if h not in handlers:
+                root.removeHandler(h)
+        root.setLevel(lvl)
+    if not ctx.oracle(err is None, "C15.run.aborted_with_no_particle_left", site, "the run did not complete: %s" % (err,), cs):
+        return
+    with netCDF4.Dataset(out) as nc:
+        count = [int(c) for c in nc["particle_count"][:]]
+        pid = [int(p) for p in nc["pid"][:]]
+    want_tail = [0, 1, 1, 1] if later else [0, 0, 0, 0]
+    ctx.oracle(len(count) == 7 and count[0] == len(pts) and (count[3:] == want_tail and (not later or pid[-1] == len(pts)) or not timed),
+               "C15.run.not_continued_to_stop_time", site,
+               "particle_count per output step %r (pids %r): expected 7 records, %d at the start%s"
+               % (count, pid, len(pts), ", then %r from the fourth record on" % (want_tail,) if timed else ""), cs)
+    if count[3:] == want_tail:
+        ctx.branch("full_run_steps_with_no_particle", want_tail.count(0))
+
+
+def no_particle_left(ctx, G, tmp, confs):
+    """zero-length queries: directly, as the tail of histories in which the particles leave one by one, through the IBMs'
+    update_ibm on LADiM's State, and in full LADiM runs in which every particle leaves"""
+    import netCDF4
+    for conf, label in confs:
+        empty_queries(ctx, G, conf, label)
+        for pair in ("chemicals", "mine", "salmon_lice", "sedimentation"):
+            for rep in range(ctx.n(1, 3)):
+                history(ctx, G, conf, label, pair, nt_max=4, tail=True)
+    chem = os.path.join(os.path.dirname(G.__file__), "forcing.nc")
+    with netCDF4.Dataset(chem) as nc:
+        shipped = all(v in nc.variables for v in ("temp", "AKs"))
+    if shipped:
+        conf = dict(gridforce=dict(input_file=chem), start_time=np.datetime64("2015-09-07T01:00:00"),
+                    stop_time=np.datetime64("2015-09-07T01:05:00"), dt=60, ibm_forcing=["temp", "AKs"])
+        for rep in range(ctx.n(1, 4)):
+            history(ctx, G, conf, "shipped", "chemicals", nt_max=3, tail=True)
+    # the IBMs on LADiM's State.  LADiM's ROMS Grid (sedimentation, mine, salmon_lice) counts positions more than half a cell
+    # inside the outermost cell centres as inside: sub-grids of fewer than four cells across have no such position
+    wide = [(c, l) for c, l in confs if min(G.Grid(c).H.shape) >= 4]
+    for attempt in range(8):
+        if wide:
+            break
+        c = make_conf(ctx, tmp, 100 + attempt)
+        gg = G.Grid(c)
+        if min(gg.H.shape) >= 4 and np.all(np.diff(gg.z_w, axis=0) > 0) and np.all(np.diff(gg.z_r, axis=0) > 0):
+            wide.append((c, "synthetic%d" % (100 + attempt)))
+    idx = 0
+    for rep in range(ctx.n(2, 10)):
+        for module in ("chemicals", "mine", "sedimentation", "salmon_lice"):
+            pool = confs if module == "chemicals" else wide
+            if not pool:
+                ctx.note("no sub-grid of four cells across: IBM histories of %s not run" % module); continue
+            conf, label = pool[ctx.rng.randrange(len(pool))]
+            ibm_history(ctx, G, conf, label, module, tmp, idx); idx += 1
+    # full LADiM runs in which every particle leaves
+    idx = 0
+    for rep in range(ctx.n(1, 6)):
+        for module in ("chemicals", "sedimentation", "mine", "salmon_lice"):
+            for side in (ctx.rng.sample("WESN", 2) if ctx.tier != "thorough" else "WESN"):
+                full_run_drain(ctx, tmp, module, side, idx); idx += 1
 
 
 def make_conf(ctx, tmp, r):
@@ -884,6 +1398,8 @@ def run(ctx):
                 ctx.note("shipped forcing.nc lacks %r: forcing queries not run on it" % ([v for v in ("temp", "AKs") if v not in have],))
         except Exception as e:
             ctx.note("shipped forcing file: %r" % (e,))
+        # ---- no particle left (added after everything else: the inputs of the parts above are as they were)
+        no_particle_left(ctx, G, tmp, confs)
     finally:
         shutil.rmtree(tmp, ignore_errors=True)
     if drv.available:
